@@ -17,7 +17,10 @@ P("C09",
              "ARBITRARY environment (any sends/retrievals on its ports by any components, any timing, any capacities), a deliverable "
              "outgoing head implies a pending tick, hence none exists at queue exhaustion (clause 1 of the statement, every topology). "
              "These use C10's tick_progress (a tick leaves no deliverable head) and the port edge lemmas of C11. "
-             "PARTIAL: clause 2 (unread input at a draining component) is not proved, only checked by the quiescent-state scan.",
+             "c09_draining_component_clean (clause 2, code as it is): for a draining component in an arbitrary environment, unread "
+             "input implies a pending tick/wake-up event of that component, hence none at exhaustion. "
+             "PARTIAL: that every run of the executable scripted world projects onto runs of these two abstract systems is by shared "
+             "definitions, not by a theorem.",
   level_note="Trusted: Coq kernel + vm_compute; the Go harness (builds the topology with the real API, scripted Ticker / "
              "EventProcessor mirroring C09.Model.activate, engine BeforeEvent hook for the trace); the hand-written world model, tied "
              "by exact equality of the full (time, handler) trace and of every port's final state on 500 (quick) random topologies. "
